@@ -187,7 +187,8 @@ def check_path(case, ctx):
 def gen_prf(tier):
     return st.fixed_dictionaries({
         "parent": parents(), "i": S.indexes(),
-        "mode": st.sampled_from(["target", "target", "il"]),
+        "mode": st.sampled_from(["target", "target", "il", "invalid"]),
+        "bad": st.sampled_from(["n", "n+1", "p-1", "max", "n-k", "n+2^64"]),
         "target": S.scalars(),                      # desired child key
         "il": st.one_of(st.sampled_from([0, 1, 2, N - 1, N - 2]), st.integers(0, N - 1)),
         "ir": S.chain_codes(),
@@ -205,7 +206,29 @@ def prf_il(case):
     return il
 
 
+def check_prf_invalid(case, ctx):
+    """CKDpriv is *defined to fail* for IL >= n and for a zero child key: the other half of 'exactly what BIP32's
+    CKDpriv defines'.  (Property C18 explores these faults in depth; here they are the corners of C01's own domain.)"""
+    p, i = dict(case["parent"], c=S.case_salt(case)), case["i"]
+    k = p["k"]
+    il = {"n": N, "n+1": N + 1, "p-1": S.P - 1, "max": 2 ** 256 - 1, "n-k": N - k, "n+2^64": N + 2 ** 64}[case["bad"]]
+    out = il.to_bytes(32, "big") + case["ir"]
+    for form, node in impl_parents(p):
+        stub = patch.ScriptedPRF({j: out for j in range(8)})
+        with patch.prf(stub):
+            st_, child = call(node.ckd, i)
+        if not stub.calls:
+            ctx.count("prf-substitution-not-effective: not judged")
+            continue
+        if st_ == "ok":
+            raise Violation("C01/prf/invalid-child-returned[%s]" % ("IL>=n" if il >= N else "zero-key"),
+                            "ckd(%d) from %s parent k=%#x with PRF output IL=%#x (%s) returned a node with key %s although "
+                            "CKDpriv is defined to fail" % (i, form, k, il, case["bad"], bytes(getattr(child, "key", b"")).hex()))
+
+
 def check_prf(case, ctx):
+    if case.get("mode") == "invalid":
+        return check_prf_invalid(case, ctx)
     p, i = dict(case["parent"], c=S.case_salt(case)), case["i"]
     il = prf_il(case)
     out = il.to_bytes(32, "big") + case["ir"]
@@ -232,6 +255,8 @@ def check_prf(case, ctx):
 
 
 def classes_prf(case):
+    if case.get("mode") == "invalid":
+        return ["invalid:" + case["bad"]]
     il = prf_il(case)
     k = case["parent"]["k"]
     out = ["child:" + S.scalar_class((il + k) % N), "hardened" if case["i"] >= H else "normal"]
